@@ -96,16 +96,16 @@ passes the direction mask in any step (no crossing located), `integrate(t, event
 that `integrate(t)` leaves with the same integrator and callbacks — same samples, step size, status, buffer,
 same requests — records no event and does not stop.  Every theorem of this file (and of C04, C12, C13) about
 the plain call therefore holds for such calls with events. -/
-theorem quiet_event_call_is_plain_call (cfg : DV.LoopEv.CfgEv ℚ) (s : Sys ℚ) (evs : List (Nat × ℚ)) (nEvents : Nat)
+theorem quiet_event_call_is_plain_call (cfg : DV.LoopEv.CfgEv ℚ) (s : Sys ℚ) (evs : List (Nat × ℚ)) (kn : List ℚ) (nEvents : Nat)
     (target : ℚ) (orc : DV.LoopEv.OracleEv ℚ) (fuel : Nat)
     (hq : ∀ k t h, (orc k t h).evRaise = false ∧ ∀ p ∈ (orc k t h).probes, p.active = false)
     (hne : s.ts ≠ []) (hcap : s.ts.length ≤ s.cap) :
-    (DV.LoopEv.integrateEv cfg s evs nEvents target orc fuel).sys = (integrate cfg.loop s target (DVP.LoopEv.baseOrc orc) fuel).sys ∧
-    (DV.LoopEv.integrateEv cfg s evs nEvents target orc fuel).reqs = (integrate cfg.loop s target (DVP.LoopEv.baseOrc orc) fuel).reqs ∧
-    (DV.LoopEv.integrateEv cfg s evs nEvents target orc fuel).guardExit = (integrate cfg.loop s target (DVP.LoopEv.baseOrc orc) fuel).guardExit ∧
-    (DV.LoopEv.integrateEv cfg s evs nEvents target orc fuel).book.events = evs ∧
-    (DV.LoopEv.integrateEv cfg s evs nEvents target orc fuel).stopped = false :=
-  DVP.LoopEv.quiet_call_is_plain_call cfg s evs nEvents target orc fuel
+    (DV.LoopEv.integrateEv cfg s evs kn nEvents target orc fuel).sys = (integrate cfg.loop s target (DVP.LoopEv.baseOrc orc) fuel).sys ∧
+    (DV.LoopEv.integrateEv cfg s evs kn nEvents target orc fuel).reqs = (integrate cfg.loop s target (DVP.LoopEv.baseOrc orc) fuel).reqs ∧
+    (DV.LoopEv.integrateEv cfg s evs kn nEvents target orc fuel).guardExit = (integrate cfg.loop s target (DVP.LoopEv.baseOrc orc) fuel).guardExit ∧
+    (DV.LoopEv.integrateEv cfg s evs kn nEvents target orc fuel).book.events = evs ∧
+    (DV.LoopEv.integrateEv cfg s evs kn nEvents target orc fuel).stopped = false :=
+  DVP.LoopEv.quiet_call_is_plain_call cfg s evs kn nEvents target orc fuel
     (fun k t h => ⟨(hq k t h).1, fun sgn => DVP.LoopEv.handle_no_active sgn _ (hq k t h).2⟩) hne hcap
 
 end DVP.C03
